@@ -227,6 +227,7 @@ impl Gen {
         if odd {
             values.push("x\0".into());
             values.push("x\0\0".into());
+            values.push(long_value('q', 181, "a"));
             values.push(long_value('q', 182, "a"));
             values.push(long_value('q', 183, "aa"));
             values.push(long_value('q', 183, "ab"));
